@@ -2,9 +2,9 @@ package sym
 
 import (
 	"fmt"
-	"os"
 	"go/types"
 	"math"
+	"os"
 	"strconv"
 	"strings"
 )
